@@ -7,7 +7,7 @@ from props import c06_extract as T
 
 NSLOT, NOBJ, NVAR, NCALL, NSENT = 10, 4, 4, 4, 4
 LAYOUTS = [(1, 1), (1, 2), (2, 1), (3, 1)]      # replace_program() family: variables of the first / second inherit
-NEFUN = 89
+NEFUN = 90
 # groups that build a cycle while they run (an error injected in the middle legitimately leaves cyclic garbage) or
 # keep a call_out handle in a local (71: the injected error would leave the call_out pending)
 NO_FAULT = (13, 48, 71)
@@ -129,7 +129,7 @@ class Gen:
             choices += [("newstr", 6), ("push", 6), ("pushr", 3), ("pop", 6), ("popto", 3), ("oref", 3),
                         ("clones", 2), ("unclone", 2), ("unload", 1 if self.late else 0), ("reclaimu", 0 if self.cyclic else 3)]
         else:
-            choices += [("err", 4), ("efun", 12), ("srange", 4), ("rest", 8), ("resto", 2), ("fefun", 6), ("frest", 3), ("reclaim", 0 if self.cyclic else 3),
+            choices += [("err", 4), ("efun", 12), ("srange", 4), ("rest", 8), ("resto", 2), ("fefun", 6), ("frest", 3), ("reclaim", 0 if self.cyclic else 3), ("newffun", 5),
                         ("arange", 8), ("arangev", 5), ("brange", 2)]
         k = r.weighted(choices)
         S = self.slots
@@ -326,6 +326,13 @@ class Gen:
             if o in ao:
                 S[d] = self.new("fn")
             self.emit("newfun %d %d %d" % (d, o, t))
+        elif k == "newffun":
+            ao = [o for o in self.alive_objs() if not self.robj[o]]
+            o = r.choice(ao) if ao and r.chance(9, 10) else r.below(NOBJ)
+            d = r.below(NSLOT)
+            if o in ao:
+                S[d] = self.new("fn")
+            self.emit("newffun %d %d %d" % (d, o, r.below(6)))
         elif k == "fill":
             d, t = r.below(NSLOT), self.pick_slot()
             n = r.weighted([(2, 3), (7, 3), (64, 2), (300, 1)])
@@ -571,7 +578,7 @@ class C06(Prop):
                 "NV.C06.program_alive_while_referenced", "NV.C06.prog_ref_eq_holders", "NV.C06.unreferenced_is_deallocated",
                 "NV.C06.holders_eq_H", "NV.C06.run_DE", "NV.C06.oracle_ref_clause", "NV.C06.oracle_freed_clause", "NV.C06.oracle_leak_clause",
                 "NV.C06.oracle_string_clauses", "NV.C06.arrBytes_matches", "NV.C06.collect1_fix", "NV.C06.oracle_accepts_model_state",
-                "NV.C06.sweep_runs_every_pending_call_once", "NV.C06.sizes_exact", "NV.C06.join_on_copy_never_inplace", "NV.C06.wc_meaning", "NV.C06.run_w",
+                "NV.C06.sweep_runs_every_pending_call_once", "NV.C06.sizes_exact", "NV.C06.func_ref_sites_agree", "NV.C06.join_on_copy_never_inplace", "NV.C06.wc_meaning", "NV.C06.run_w",
                 "NV.C06.widths_agree", "NV.C06.ref_eq_holders", "NV.C06.no_free_while_held",
                 "NV.C06.primitives_preserve_invariant", "NV.C06.string_never_freed_while_held", "NV.C06.string_cells_never_freed_while_held",
                 "NV.C06.string_saturates", "NV.C06.no_inplace_modification_while_shared", "NV.C06.extendInPlace_sole",
@@ -609,7 +616,8 @@ class C06(Prop):
                   "(assign_svalue, assign_svalue_no_free, free_svalue with recursive release, push/pop, allocation, "
                   "mapping nodes, string counters with saturation and the in-place decisions that read them, free_call / free_sentence / "
                   "dealloc_funp, destruct_object / destruct2, call_out() including callbacks that raise an error or destruct their "
-                  "object, input_to / get_char, program_t.ref with clone / inherit / blueprint references (reference_prog, free_prog, "
+                  "object, input_to / get_char, program_t.ref with clone / inherit / blueprint references and func_ref with the function "
+                  "pointers compiled into a program, made by own or inherited code (reference_prog, free_prog, make_functional_funp, "
                   "deallocate_program), replace_programs(), reclaim_objects(), assignment to array / buffer range lvalues in both forms) for all sequences of primitives: counter = number of holders, nothing "
                   "freed while held, no dangling pointer anywhere, unreferenced values deallocated, count and size statistics exact, the "
                   "oracle's declarative collection step is the identity on every model state; tied to the "
@@ -638,7 +646,7 @@ class C06(Prop):
             "programs, replace_program() over four variable layouts, reclaim_objects() with destructed objects in variables / arrays / "
             "classes / mapping keys and values / function pointer arguments, a callback that installs a new input_to, "
             "assignment to array / buffer range lvalues (temporary / shared right-hand side, same / other length, statement / value form), "
-            "input_to refused while one is pending, "
+            "input_to refused while one is pending, function pointers compiled into the object's own or the inherited program (func_ref of both), "
             "destruct + deferred cleanup, errors thrown under live frames, 64 efun/operator groups with results dropped (every "
             "lvalue-assignment form, operators and efuns taken from the opcode histogram), an error "
             "injected at the k-th instruction (or at every instruction in turn) of 86 efun groups and of restore_variable, "
@@ -658,8 +666,10 @@ class C06(Prop):
                    "(same state after every operation) is not proved, the statistics clauses only for num_arrays / num_mappings / "
                    "tot_alloc_object / total_array_size / total_mapping_nodes (string and function-name counters are compared); the oracle is exercised on the model's "
                    "traces and on corrupted ones",
-                   "func_ref of programs is not modelled as a counter (only its width is an obligation); swapping, load_binary "
-                   "and total_num_prog_blocks are not modelled; replaceable() is not called",
+                   "func_ref of programs is a cell of the model (function pointers made by an object's own and by inherited code), but the "
+                   "case 'program kept alive by func_ref after its last reference' is not reached (unit mode cannot make such pointers, "
+                   "lpc mode cannot unload); the copying path of f_bind is only tied textually (the harness master denies binding); "
+                   "swapping, load_binary and total_num_prog_blocks are not modelled; replaceable() is not called",
                    "one interactive user (create_test_interactive of the repository), input_to / get_char with flag 0 only",
                    "error injection (hook H2) happens at instruction dispatch only: an error raised in the middle of an efun is "
                    "covered only where LPC code can provoke it (the 25 'builder aborted half-way' groups); groups that build a cycle "
@@ -725,9 +735,10 @@ class C06(Prop):
             ("nodes+1", 7, st(3, 1), "counter=total_mapping_nodes"), ("nodes-1", 7, st(3, -1), "counter-low"),
             ("strings+1", 11, st(4, 1), "counter=num_distinct_strings by=+1"), ("strings-1", 9, st(4, -1), "counter-low"),
             ("objects+1", 19, st(6, 1), "counter=tot_alloc_object"), ("objects-at-end", 21, st(6, 1), "counter=tot_alloc_object"),
-            ("program-ref", 2, lambda l: setfld(l, "p:", "p:5/2"), "kind=program prog=uobj"), ("program-freed", 2, lambda l: setfld(l, "p:", "p:x/2"), "freed-while-held op=2 kind=program"),
-            ("base-program-ref", 9, lambda l: setfld(l, "p:", fld(l, "p:").split("/")[0] + "/1"), "kind=program prog=base ref=1 holders=2"),
-            ("base-program-freed", 21, lambda l: setfld(l, "p:", fld(l, "p:").split("/")[0] + "/x"), "freed-while-held op=21 kind=program prog=base"),
+            ("program-ref", 2, lambda l: setfld(l, "p:", "p:5.0/2.0"), "kind=program prog=uobj"), ("program-freed", 2, lambda l: setfld(l, "p:", "p:x.x/2.0"), "freed-while-held op=2 kind=program"),
+            ("func_ref-wrong", 9, lambda l: setfld(l, "p:", fld(l, "p:").split("/")[0] + "/2.1"), "kind=program-func_ref prog=base func_ref=1 function-pointers=0"),
+            ("base-program-ref", 9, lambda l: setfld(l, "p:", fld(l, "p:").split("/")[0] + "/1.0"), "kind=program prog=base ref=1 holders=2"),
+            ("base-program-freed", 21, lambda l: setfld(l, "p:", fld(l, "p:").split("/")[0] + "/x.x"), "freed-while-held op=21 kind=program prog=base"),
             ("injected-error-leak", 9, lambda l: st(0, 1)(l) + " k:17", "first-difference-at=k:17 counter=num_arrays by=+1"),
             ("name-refs+1", 13, lambda l: setfld(l, "f:", "f:2"), "function_name_string_refs by=+1"),
             ("name-refs-1", 9, lambda l: setfld(l, "f:", "f:0"), "counter-low"),
@@ -936,6 +947,14 @@ class C06(Prop):
                 "aget 7 0 0", "aget 8 6 1", "arangev 6 0 2 0 %d" % f, "arangev 0 0 1 6 %d" % f, "free 0", "free 6", "free 7", "free 8"])
         mk("range-lvalue-buffer", "lpc", ["newbuf 0 6", "assign 1 0", "brange 0 0 2 2", "brange 0 1 2 1", "brange 0 5 0 3", "brange 1 0 6 1",
                                           "brange 0 0 8 8", "free 0", "free 1"])
+        # function pointers compiled into a program ((: ... :), function () {}): func_ref of the program whose code made them -
+        # the object's own program or the one it inherits - after creation, copies, release, destruct + cleanup
+        mk("functionals-func_ref-lpc", "lpc",
+           ["newobj 0", "newobj 1", "newffun 0 0 0", "newffun 1 0 1", "newffun 2 1 2", "newffun 3 1 3", "newffun 4 0 1", "newffun 7 0 4", "newffun 8 1 5", "free 7", "free 8", "assign 5 1", "newarr 6 2",
+            "aset 6 0 1", "setvar 1 0 3", "free 1", "free 0", "free 5", "dest 0", "cleanup", "free 6", "free 4", "free 2", "drop 0", "dest 1", "cleanup",
+            "free 3", "drop 1"])
+        mk("functionals-bind-lpc", "lpc", ["newobj 0", "newarr 0 2", "efun 89 0 0", "newffun 1 0 1", "efun 89 0 1", "fefun 89 0 0 0", "free 1", "free 0",
+                                           "dest 0", "efun 89 0 0", "cleanup", "drop 0"])
         mk("errors-lpc", "lpc", ["newarr 0 2", "newmap 1", "newobj 0", "mset 1 0 0", "err 0 1", "efun 10 0 1",
                                  "efun 11 0 1", "err 1 0", "free 0", "free 1", "dest 0", "cleanup", "drop 0"])
         # repaired defects: copy() beyond the nesting limit leaked the partial copy; copy() of a class miscounted arrays
